@@ -879,6 +879,18 @@ pub fn suite_shapes(ctx: &Ctx, thorough: bool) {
         }
     } } } }
     let _ = thorough;
+    // a PURL with nothing but a type and a name, for every shape
+    for name in &strs_v { for ty in ["t", "Generic"] {
+        ctx.eval();
+        let name = name.as_str();
+        let a = guarded(|| GenericPurlBuilder::new(ty.to_owned(), name).build().map(|p| p.to_string()).map_err(|e| format!("{e:?}")));
+        let b = guarded(|| GenericPurlBuilder::new(Cow::Borrowed(ty), name).build().map(|p| p.to_string()).map_err(|e| format!("{e:?}")));
+        let c = guarded(|| GenericPurlBuilder::new(Cow::<str>::Owned(ty.to_owned()), name).build().map(|p| p.to_string()).map_err(|e| format!("{e:?}")));
+        let d = guarded(|| GenericPurlBuilder::new(SmallString::from(ty), name).build().map(|p| p.to_string()).map_err(|e| format!("{e:?}")));
+        for (n, x) in [("Cow::Borrowed", &b), ("Cow::Owned", &c), ("SmallString", &d)] {
+            if *x != a { ctx.violate("C13.builder", "same acceptance / error / type / accessors / string for every built-in type parameter", json!({"type": ty, "name": name, "shape": n, "only": "type and name"}), format!("{x:?}"), format!("{a:?}")); }
+        }
+    } }
     // borrowed type strings that share their start address (prefixes of one buffer), shortest first and longest first
     for base in ["deb/curl", "Npm pkg", "a.b+c d", "AbC"] {
         let mut lens: Vec<usize> = (0..=base.len()).collect();
